@@ -114,7 +114,7 @@ Proof.
   rewrite IH by (rewrite skipn_length; lia). rewrite firstn_length. f_equal. lia.
 Qed.
 Lemma sum_app : forall a b, sum (a ++ b) = sum a + sum b.
-Proof. induction a; simpl; intros; auto. rewrite IHa. lia. Qed.
+Proof. induction a; simpl; intros; [reflexivity|]. rewrite IHa. lia. Qed.
 Lemma rotated_length : forall c, length (rotated c) = n_bits c + n_qubits c.
 Proof. intros. rewrite rotated_eq, app_length, !map_length, !seq_length. reflexivity. Qed.
 
@@ -125,13 +125,14 @@ Proof. induction sizes; simpl; intros; auto. rewrite IHsizes. reflexivity. Qed.
 (* ---------------------------------------------------------------- signatures *)
 Lemma gty_eqb_refl : forall t, gty_eqb t t = true.
 Proof.
-  fix IH 1. destruct t; simpl; auto using Nat.eqb_refl.
+  fix IH 1. destruct t; simpl; try reflexivity.
   - rewrite IH, Nat.eqb_refl. reflexivity.
-  - induction ts; auto. rewrite IH. exact IHts.
+  - induction ts; [reflexivity|]. rewrite IH. exact IHts.
+  - apply Nat.eqb_refl.
 Qed.
 Lemma gty_eqb_eq : forall a b, gty_eqb a b = true -> a = b.
 Proof.
-  fix IH 1. destruct a, b; simpl; intros H; try discriminate; auto.
+  fix IH 1. destruct a, b; simpl; intros H; try discriminate; try reflexivity.
   - apply andb_prop in H. destruct H as [H1 H2]. apply IH in H1. apply Nat.eqb_eq in H2. subst. reflexivity.
   - f_equal. revert ts0 H. induction ts; destruct ts0; intros H; try discriminate; auto.
     apply andb_prop in H. destruct H as [H1 H2]. apply IH in H1. subst. f_equal. apply IHts. exact H2.
@@ -150,4 +151,59 @@ Proof.
   - apply andb_prop in H. destruct H as [H1 H2]. apply inputs_eqb_iff in H1. apply gty_eqb_eq in H2.
     destruct (sig_of arrays c); simpl in *; subst; reflexivity.
   - rewrite <- H. simpl. rewrite gty_eqb_refl. assert (inputs_eqb i i = true) as -> by (apply inputs_eqb_iff; auto). reflexivity.
+Qed.
+
+(* ---------------------------------------------------------------- what a signature offers *)
+Fixpoint leaves (what : gty -> bool) (t : gty) : nat :=
+  match t with
+  | GArr e n => n * leaves what e
+  | GTuple ts => fold_right (fun x acc => leaves what x + acc) 0 ts
+  | _ => if what t then 1 else 0
+  end.
+Definition is_bool (t : gty) := match t with GBool => true | _ => false end.
+Definition is_qubit (t : gty) := match t with GQubit => true | _ => false end.
+Definition is_angle (t : gty) := match t with GAngle => true | _ => false end.
+Definition leaves_in (what : gty -> bool) (ts : list gty) : nat := fold_right (fun x acc => leaves what x + acc) 0 ts.
+
+Lemma leaves_row : forall what ts, (forall t, In t ts -> match t with GTuple _ | GNone => False | _ => True end) ->
+  what GNone = false -> leaves what (row_to_type ts) = leaves_in what ts.
+Proof.
+  intros what ts H N. destruct ts as [|a [|b r]]; simpl.
+  - rewrite N. reflexivity.
+  - rewrite Nat.add_0_r. reflexivity.
+  - reflexivity.
+Qed.
+
+Lemma bools_per_bit : forall arrays c, leaves is_bool (s_output (sig_of arrays c)) = n_bits c.
+Proof.
+  intros [|] c; unfold sig_of; simpl s_output; rewrite leaves_row; auto.
+  - unfold n_bits. induction (c_regs c); simpl; auto. rewrite Nat.mul_1_r. f_equal. exact IHl.
+  - intros t I. apply in_map_iff in I. destruct I as (s & <- & _). exact I.
+  - unfold n_bits. induction (sum (c_regs c)); simpl; auto.
+  - intros t I. apply repeat_spec in I. subst. exact I.
+Qed.
+
+Lemma leaves_in_app : forall what a b, leaves_in what (a ++ b) = leaves_in what a + leaves_in what b.
+Proof. induction a; simpl; intros; [reflexivity|]. rewrite IHa. lia. Qed.
+Lemma leaves_in_arr : forall what e l, leaves_in what (map (fun s => GArr e s) l) = sum l * leaves what e.
+Proof. induction l; simpl; [reflexivity|]. rewrite IHl. rewrite Nat.mul_add_distr_r. reflexivity. Qed.
+Lemma leaves_in_repeat : forall what t n, leaves_in what (repeat t n) = n * leaves what t.
+Proof. induction n; simpl; [reflexivity|]. rewrite IHn. reflexivity. Qed.
+Lemma map_fst_repeat : forall (t : gty) (f : bool) n, map fst (repeat (t, f) n) = repeat t n.
+Proof. induction n; simpl; [reflexivity|]. rewrite IHn. reflexivity. Qed.
+
+Lemma qubits_per_qubit : forall arrays c,
+  leaves_in is_qubit (map fst (s_inputs (sig_of arrays c))) = n_qubits c /\
+  leaves_in is_angle (map fst (s_inputs (sig_of arrays c))) = n_params c /\
+  Forall (fun i => snd i = is_qubit (match fst i with GArr e _ => e | t => t end)) (s_inputs (sig_of arrays c)).
+Proof.
+  intros [|] c; unfold sig_of; simpl s_inputs; rewrite !map_app, !leaves_in_app.
+  - rewrite map_map. simpl fst. rewrite !leaves_in_arr. simpl leaves. repeat split.
+    + destruct (n_params c =? 0); simpl; unfold n_qubits; lia.
+    + destruct (n_params c =? 0) eqn:E; simpl; [apply Nat.eqb_eq in E|]; lia.
+    + apply Forall_app. split.
+      * apply Forall_forall. intros x I. apply in_map_iff in I. destruct I as (s & <- & _). reflexivity.
+      * destruct (n_params c =? 0); constructor; auto.
+  - rewrite !map_fst_repeat, !leaves_in_repeat. simpl leaves. repeat split; try lia.
+    apply Forall_app. split; apply Forall_forall; intros x I; apply repeat_spec in I; subst; reflexivity.
 Qed.
